@@ -233,11 +233,13 @@ func (vm *VirtualMachine) runCodeInternal(ctx context.Context, codeToRun *compil
 
 	// Activate the entrypoint code in frame zero. Run resumes where the
 	// previous run of this code stopped (REPL behavior), RunCode starts at 0.
-	// The saved ip only belongs to this code if it is still loaded: after a
-	// RunCode of other code it is an offset into that other code, and Run
-	// starts from the beginning again.
+	// The saved ip only belongs to this code if it is still loaded (or if
+	// nothing has run yet): after a RunCode of other code it is an offset into
+	// that other code, and Run starts from the beginning again.
 	startIP := 0
-	if !resetState && exists {
+	if !resetState && (exists || vm.activeCode == nil) {
+		// activeCode is nil when nothing has run on this VM yet: the ip is
+		// then the one the host chose (WithInstructionOffset, SetIP)
 		startIP = vm.ip
 	}
 	vm.activateCode(0, startIP, codeObj)
